@@ -342,9 +342,6 @@ func c11CheckUse(rec *vk.Rec, b *Broker, fail func(string, string, map[string]in
 		tl = nil
 	}
 	tg := c03Target{tl, strings.HasSuffix(target, "#/")}
-	if len(tl) > 0 && tl[len(tl)-1] == "+" {
-		return // F12 region (C03's known finding): such targets validate nothing
-	}
 	lit := func(l []string) []string {
 		o := make([]string, len(l))
 		for i, x := range l {
